@@ -210,7 +210,20 @@ check('C17', 'exploration',
       'TLA+ state machine (TLC) replayed on real instances + TLA+ attack family judged by TLC on syscall-level observations of the real server',
       'DESIGN.md 4/C17')
 
-PENDING = ['C07']
+check('C07', 'exploration',
+      'SpyneWsdl.tla: applications assembled from a pool of method shapes (custom operation / message names, SOAP headers from two '
+      'namespaces, declared faults - one with a namespace of its own -, bare / out_bare styles with differing request and response '
+      'primitives, foreign-namespace arguments, port types) over one or two services (193 applications) and the clauses the WSDL must '
+      'satisfy. Each application is built for real; the structure of its document is extracted and TLC (TraceWsdlDoc) checks per method '
+      'OpOnce, InDeclaredPort, MessagesMatch, FaultsDeclared, HeadersDeclared, ZeepDrives and per document Closed (every QName '
+      'reference - type, base, element, ref, message, binding, portType, header part - resolves), NoStrayOps, Deterministic (rebuilt '
+      'twice in each of several fresh processes with different PYTHONHASHSEED, sha256 compared). ZeepDrives: a zeep client generated from '
+      'the served WSDL alone calls every method (with headers) on the real server under validator=lxml and decodes the value returned. '
+      'The schema-assembly side (imports, types per namespace) is modelled and checked in SpyneSchema (C06).',
+      'TLA+ application family + structural clauses evaluated by TLC on real documents; independent SOAP toolkit driven by the WSDL',
+      'DESIGN.md 4/C07')
+
+PENDING = []
 
 def main():
     import importlib
